@@ -909,6 +909,8 @@ def run(cx, rep):
     # ---------------------------------------------------------------- C04.6
     rep.rule("C04.6", "the converter never asks the engine a semantic question while definitions are under construction")
     converter_typestate_rule(cx, rep, "C04.6", sccs_all=None)
+    rep.rule("C04.7", "an Anchor pairs a span with the file the span was read in (syntax and its file travel together)")
+    anchor_colocation_rule(cx, rep, "C04.7")
 
     # positive controls
     rep.rule("C04.ctl", "positive controls in the canary crate")
@@ -1077,3 +1079,203 @@ def converter_typestate_rule(cx, rep, rid, sccs_all=None):
                        "%s (part of the converter's recursion, during which atom slots of the types being converted still hold placeholders) calls %s: the decision dereferences the placeholder of any type that leads back to itself and panics (`should exist`) instead of producing code or a diagnostic" % (g, c.path),
                        "%s:%s" % (c.file, c.line), sample={"fn": g, "call": c.path})
     rep.ob(rid, "converter-recursion", True, sample={"functions_in_the_converter_recursion": len(members), "decision_calls_inside": bad_n})
+
+
+SYN_TY = re.compile(r"swc_ecma_ast::|swc_common::Span\b")
+FILE_TY = re.compile(r"\bBffFileName\b|\bAnchor\b")
+TRANSPARENT = {"clone", "to_owned", "borrow", "as_ref", "deref", "into", "to_string"}
+OWN = 10 ** 6
+
+
+def anchor_colocation_rule(cx, rep, rid):
+    """A diagnostic is located by an `Anchor { f: file, s: span }`; the span is a byte range of ONE file, so it only
+    means something together with that file.  Most of the frontend passes `(syntax node, file it was parsed from)`
+    down together and builds anchors from the pair.  Where a function is handed syntax of the CURRENT file together
+    with ANOTHER file (the module an `import("./m")` resolved to - needed to resolve names there), an anchor built
+    from that pair names the other file with offsets of this one: the reported range is not inside the named file.
+    Decided inter-procedurally over the typed HIR of the frontend:
+      * REQ(f) = the (syntax parameter, file / anchor parameter) pairs from which f - or a function it passes them on
+        to - builds an Anchor (least fixpoint);
+      * at every call of a function with a required pair, and at every Anchor construction, a syntax argument that
+        comes from the caller's own syntax parameters must be accompanied by a file / anchor that IS the caller's own
+        file / anchor parameter (a clone, a field, an Anchor built from it) - not one obtained from a lookup or an
+        import resolution."""
+    F = cx.rs
+    fns = {}
+    for g, t in F.hir.items():
+        f = F.fns.get(g)
+        if f is None or f.kind == "Closure" or f.crate == WASM or "/src/frontend/" not in (f.file or ""):
+            continue
+        fns[g] = (f, t)
+    info = {}
+    for g, (f, t) in fns.items():
+        params = []
+        for i, p in enumerate(t.get("params", [])):
+            lids = [x.get("lid") for x in walk(p) if x["k"] == "P.Binding"] if isinstance(p, dict) else []
+            params.append(lids)
+        ptys = f.inputs or []
+        lid2param = {}
+        for i, lids in enumerate(params):
+            for l in lids:
+                lid2param[l] = i
+        src = {}
+        for n in walk(t["body"]):
+            if n["k"] in ("LetStmt", "Let") and n.get("init") is not None:
+                for b in walk(n["pat"]):
+                    if b["k"] == "P.Binding":
+                        src.setdefault(b.get("lid"), []).append(n["init"])
+            if n["k"] == "Match":
+                for a in n["arms"]:
+                    for b in walk(a["pat"]):
+                        if b["k"] == "P.Binding":
+                            src.setdefault(b.get("lid"), []).append(n["scrut"])
+        info[g] = (params, ptys, lid2param, src)
+
+    def loose_params(g, e, depth=0, seen=None):
+        """parameter indices the expression may derive from"""
+        params, ptys, lid2param, src = info[g]
+        seen = seen if seen is not None else set()
+        out = set()
+        if e is None:
+            return out
+        for x in walk(e):
+            if x["k"] == "Path" and x.get("res") == "local":
+                l = x.get("lid")
+                if l in lid2param:
+                    out.add(lid2param[l])
+                elif l in src and l not in seen and depth < 8:
+                    seen.add(l)
+                    for e2 in src[l]:
+                        out |= loose_params(g, e2, depth + 1, seen)
+        return out
+
+    def strict_params(g, e, depth=0, seen=None):
+        """parameter indices the expression IS (through clones, references, field reads, an Anchor built from it)"""
+        params, ptys, lid2param, src = info[g]
+        seen = seen if seen is not None else set()
+        if e is None or depth > 8:
+            return set()
+        k = e["k"]
+        if k in ("AddrOf", "Unary", "Cast", "DropTemps", "Paren"):
+            return strict_params(g, e["e"], depth + 1, seen)
+        if k == "Field":
+            b_ = e["e"]
+            while b_["k"] in ("AddrOf", "Unary"):
+                b_ = b_["e"]
+            if b_["k"] == "Path" and b_.get("name") == "self":
+                return {OWN}          # a file the context itself is working on (the parser file), not a lookup
+            base = strict_params(g, e["e"], depth + 1, seen)
+            if base and FILE_TY.search(e.get("ty") or ""):
+                return base | {OWN}   # a location handed in inside a parameter (a scope / options record): the caller's choice
+            return base
+        if k == "MethodCall" and e["method"] in TRANSPARENT:
+            return strict_params(g, e["recv"], depth + 1, seen)
+        if k == "Struct" and (e.get("def") or "").endswith("Anchor"):
+            for fl in e.get("fields", []):
+                if fl.get("name") == "f":
+                    return strict_params(g, fl.get("e") or fl.get("expr"), depth + 1, seen)
+            return set()
+        if k == "Path" and e.get("res") == "local":
+            l = e.get("lid")
+            if l in lid2param:
+                return {lid2param[l]}
+            if l in src and l not in seen:
+                seen.add(l)
+                out = None
+                for e2 in src[l]:
+                    s_ = strict_params(g, e2, depth + 1, seen)
+                    out = s_ if out is None else (out & s_)
+                return out or set()
+        return set()
+
+    PROJ = TRANSPARENT | {"as_deref", "iter", "first", "last", "get", "unwrap", "expect", "as_slice", "split_first", "find", "next", "into_iter",
+                          "unwrap_or_default", "span", "ok_or", "ok_or_else", "and_then", "map", "filter", "cloned", "nth"}
+
+    def syn_params(g, e, depth=0, seen=None):
+        """syntax parameters the expression is a PART of (fields, pattern bindings, projections) - a value that comes
+        back from a lookup is not part of this function's own syntax even if the key was computed from it"""
+        params, ptys, lid2param, src = info[g]
+        seen = seen if seen is not None else set()
+        if e is None or depth > 10:
+            return set()
+        k = e["k"]
+        if k in ("AddrOf", "Unary", "Cast", "DropTemps", "Paren", "Field", "Index"):
+            return syn_params(g, e["e"], depth + 1, seen)
+        if k == "MethodCall" and e["method"] in PROJ:
+            return syn_params(g, e["recv"], depth + 1, seen)
+        if k == "Path" and e.get("res") == "local":
+            l = e.get("lid")
+            if l in lid2param:
+                return {lid2param[l]}
+            if l in src and l not in seen:
+                seen.add(l)
+                out = set()
+                for e2 in src[l]:
+                    out |= syn_params(g, e2, depth + 1, seen)
+                return out
+        return set()
+
+    def is_syn(ty):
+        return bool(SYN_TY.search(ty or ""))
+
+    def is_loc(ty):
+        return bool(FILE_TY.search(ty or "")) and "swc_ecma_ast" not in (ty or "")
+    REQ = {g: set() for g in fns}
+    sites = {g: [] for g in fns}     # (node, syntax expr, file expr, what)
+    for g, (f, t) in fns.items():
+        for n in walk(t["body"]):
+            if n["k"] == "Struct" and (n.get("def") or "").endswith("diag::Anchor") or (n["k"] == "Struct" and (n.get("ty") or "").endswith("Anchor")):
+                fl = {x.get("name"): (x.get("e") or x.get("expr")) for x in n.get("fields", [])}
+                if fl.get("f") is not None and fl.get("s") is not None:
+                    sites[g].append((n, fl["s"], fl["f"], "Anchor"))
+    changed = True
+    rounds = 0
+    while changed and rounds < 12:
+        changed = False
+        rounds += 1
+        for g, (f, t) in fns.items():
+            params, ptys, lid2param, src = info[g]
+            cand = list(sites[g])
+            for n in walk(t["body"]):
+                if n["k"] in ("Call", "MethodCall"):
+                    tg = F._callee_gid(f.crate, (n.get("resolved") or n.get("callee") or ""))
+                    if tg in REQ and REQ[tg]:
+                        args = ([n["recv"]] + n["args"]) if n["k"] == "MethodCall" else n["args"]
+                        for (a, b) in REQ[tg]:
+                            if a < len(args) and b < len(args):
+                                cand.append((n, args[a], args[b], tg))
+            for n, se, fe, what in cand:
+                ps = {i for i in syn_params(g, se) if i < len(ptys) and is_syn(ptys[i])}
+                pf = {i for i in strict_params(g, fe) if i < len(ptys) and is_loc(ptys[i])}
+                for i in ps:
+                    for j in pf:
+                        if (i, j) not in REQ[g]:
+                            REQ[g].add((i, j))
+                            changed = True
+    n_sites = 0
+    for g, (f, t) in sorted(fns.items()):
+        params, ptys, lid2param, src = info[g]
+        cand = list(sites[g])
+        for n in walk(t["body"]):
+            if n["k"] in ("Call", "MethodCall"):
+                tg = F._callee_gid(f.crate, (n.get("resolved") or n.get("callee") or ""))
+                if tg in REQ and REQ[tg]:
+                    args = ([n["recv"]] + n["args"]) if n["k"] == "MethodCall" else n["args"]
+                    for (a, b) in sorted(REQ[tg]):
+                        if a < len(args) and b < len(args):
+                            cand.append((n, args[a], args[b], tg))
+        seen_keys = {}
+        for n, se, fe, what in cand:
+            ps = {i for i in syn_params(g, se) if i < len(ptys) and is_syn(ptys[i])}
+            if not ps:
+                continue          # the syntax does not come from this function's own parameters (C09.13 covers records)
+            n_sites += 1
+            pf = {i for i in strict_params(g, fe) if i == OWN or (i < len(ptys) and is_loc(ptys[i]))}
+            callee = what if what == "Anchor" else what.rsplit("::", 1)[-1]
+            key = "%s/%s" % (g.rsplit("::", 1)[-1], callee)
+            k_i = seen_keys.get(key, 0)
+            seen_keys[key] = k_i + 1
+            rep.ob(rid, "%s#%d" % (key, k_i), bool(pf),
+                   "%s hands syntax of the file it is working on to %s together with a file that is not its own file / anchor parameter (it comes from a lookup or an import resolution): an Anchor built from the pair names that file with byte offsets of this one, so a diagnostic reports a range that does not lie inside the file it names (`type X = import(\"./other\").NS.Foo` with NS missing)" % (g, "an Anchor" if what == "Anchor" else what),
+                   "%s:%s" % (f.file, n.get("line")), sample={"fn": g, "to": callee})
+    rep.floor(rid, "places where syntax and a file / anchor are paired", n_sites, 40)
